@@ -322,7 +322,7 @@ class CSSImportRule(cssrule.CSSRule):
                     cssText, encodingOverride=encodingOverride, encoding=encoding
                 )
 
-            except (OSError, ValueError) as e:
+            except (OSError, ValueError, LookupError) as e:
                 self._log.warn(
                     'CSSImportRule: While processing imported '
                     'style sheet href=%s: %r' % (self.href, e),
